@@ -118,6 +118,20 @@ def tree(root):
     return out
 
 
+def tree_stat(root):
+    """relative path -> (size, mtime_ns): a file that exists already but is appended to counts as written."""
+    out = {}
+    for d, ds, fs in os.walk(root):
+        for f in fs:
+            p = os.path.join(d, f)
+            try:
+                st = os.stat(p)
+                out[os.path.relpath(p, root)] = (st.st_size, st.st_mtime_ns)
+            except OSError:
+                pass
+    return out
+
+
 def run_cli(cwd, args):
     """python -m geophires_x <args> executed in-process; returns (exit status, cwd_restored, argv_restored)."""
     cwd0, argv0 = os.getcwd(), sys.argv
@@ -166,15 +180,17 @@ def scenario(inst, shape, input_abs, failing, family='plain'):
         er = Path(expected_report)
         expected_json = str(er.with_name(er.stem + '.json')) if out_arg is not None else os.path.join(work, 'HDR.json')
         before = tree(root)
-        pkg_before = tree(PKG_DIR)
+        pkg_before = tree_stat(PKG_DIR)
         rc, cwd_ok, argv_ok = run_cli(work, [inp_arg] + ([out_arg] if out_arg is not None else []))
         created = tree(root) - before
-        stray = sorted(f for f in tree(PKG_DIR) - pkg_before if '__pycache__' not in f and not f.endswith('.pyc'))
+        pkg_after = tree_stat(PKG_DIR)
+        stray = sorted(f for f, st in pkg_after.items() if pkg_before.get(f) != st and '__pycache__' not in f and not f.endswith('.pyc'))
         for f in stray:      # a (broken) tree wrote into its own package directory: report it below and leave /repo as it was
-            try:
-                os.unlink(os.path.join(PKG_DIR, f))
-            except OSError:
-                pass
+            if f not in pkg_before:
+                try:
+                    os.unlink(os.path.join(PKG_DIR, f))
+                except OSError:
+                    pass
         res.append(('CLI: nothing is written into the program\'s own package directory', not stray, {'written into src/geophires_x': stray[:6]}))
         rel = lambda p: os.path.relpath(p, root)
         if failing:
